@@ -83,6 +83,9 @@ def build_corpus(tier, seed):
                 sim += b
         real = corpus.real_blocks()
         pairs = []
+    cat = gen.rule_pattern_blocks()
+    gstats["rule_catalogue_blocks"] = len(cat)
+    groups["Xcat"] = [{"cmd": "opt", "text": t} for t in cat]
     groups["Xpair"] = [{"cmd": "opt", "text": t} for t in pairs] + [{"cmd": "opt", "text": t} for t in (mem3 if tier == "quick" else [])]
     gstats["rule_pairs"] = len(pairs)
     gstats.update({"rule_basic": len(rb), "rule_ctx": len(rc), "rule_chain": len(chain), "sim": len(sim), "real": len(real),
@@ -104,12 +107,14 @@ def plan(tier, groups, seed):
             cmds += groups["H"]
             if is_smt(argv):
                 cmds += corpus.sample(groups["Xrule"], 80, seed + i)
+                cmds += corpus.sample(groups["Xcat"], 60, seed + i)
                 cmds += corpus.sample(groups["Xvoc"], 40, seed + i)
                 cmds += corpus.sample(groups["R"], 40, seed + i)
             else:
                 cmds += groups["Xrule"] if i < 2 else corpus.sample(groups["Xrule"], 400, seed + i)
                 cmds += corpus.sample(groups["Xvoc"], 2500, seed) if i == 0 else corpus.sample(groups["Xvoc"], 300, seed + i)
                 cmds += groups["Xpair"] if i == 0 else corpus.sample(groups["Xpair"], 300, seed + i)
+                cmds += groups["Xcat"] if i < 2 else corpus.sample(groups["Xcat"], 150, seed + i)
                 cmds += groups["S"]
                 cmds += groups["R"]
             jobs.append((name, argv, [dict(c) for c in cmds]))
@@ -120,12 +125,14 @@ def plan(tier, groups, seed):
             cmds += groups["H"]
             if is_smt(argv):
                 cmds += corpus.sample(groups["Xrule"], 100, seed + i)
+                cmds += corpus.sample(groups["Xcat"], 100, seed + i)
                 cmds += corpus.sample(groups["Xvoc"], 60, seed + i)
                 cmds += corpus.sample(groups["R"], 60, seed + i)
             else:
                 basic = len(argv) <= 2          # -greedy alone or with one more flag
                 cmds += groups["Xrule"] if basic else corpus.sample(groups["Xrule"], 400, seed + i)
                 cmds += corpus.sample(groups["Xchain"], 20000 if basic else 300, seed + i)
+                cmds += groups["Xcat"]
                 cmds += corpus.sample(groups["Xvoc"], 15000 if basic else 300, seed + i)
                 cmds += groups["S"] if basic else corpus.sample(groups["S"], 100, seed + i)
                 cmds += groups["R"] if basic else corpus.sample(groups["R"], 500, seed + i)
